@@ -32,7 +32,7 @@ from cryptoparser.common.base import (
     VariantParsable,
     VariantParsableExact,
 )
-from cryptoparser.common.exception import InvalidType
+from cryptoparser.common.exception import InvalidType, NotEnoughData, TooMuchData
 from cryptoparser.common.field import (
     FieldParsableBase,
     FieldValueBase,
@@ -1747,7 +1747,10 @@ class HttpHeaderFieldParsedBase(HttpHeaderFieldBase):
         parser.parse_separator(' \t', min_length=0, max_length=None)
         parser.parse_string_until_separator('value', ['\r\n', ])
 
-        value = cls._get_value_class().parse_exact_size(six.ensure_binary(parser['value'].rstrip(' \t'), 'ascii'))
+        try:
+            value = cls._get_value_class().parse_exact_size(six.ensure_binary(parser['value'].rstrip(' \t'), 'ascii'))
+        except (NotEnoughData, TooMuchData) as e:
+            six.raise_from(InvalidValue(parser['value'], cls, 'value'), e)
 
         return cls(value), parser.parsed_length
 
